@@ -271,6 +271,9 @@ Inductive ev :=
 | EPgAdd (pg q : positive) (ph : Z)                   (* informer: PodGroup add *)
 | EPgUpd (pg q : positive) (ph : Z)                   (* informer: PodGroup update *)
 | EPgDel (pg : positive)                              (* informer: PodGroup delete *)
+| EPgGone (pg : positive)                             (* the informer's store dropped the PodGroup; the delete
+                                                         handler has not run yet *)
+| EPgDelLate (pg q : positive)                        (* ... now deletePodGroup runs for that PodGroup of queue q *)
 | EQCreate (q : positive) (p : option positive)       (* a user creates a Queue (status empty) *)
 | EQReparent (q : positive) (p : option positive)     (* a user edits spec.parent *)
 | EQDelete (q : positive)                             (* a user deletes a Queue *)
@@ -314,6 +317,8 @@ Definition step (s : st) (e : ev) : st * outcome :=
       | Some (q0, _) =>
         (push (set_idx (set_pgl s (delete pg (pgl s))) (idx_del (idx s) q0 pg)) (sync_req q0), ONone)
       end
+  | EPgGone pg => (set_pgl s (delete pg (pgl s)), ONone)
+  | EPgDelLate pg q => (push (set_idx s (idx_del (idx s) q pg)) (sync_req q), ONone)
   | EQCreate q p =>
       match srv s !! q with
       | Some _ => (s, ONone)
